@@ -436,7 +436,9 @@ impl<S: futures::AsyncRead + futures::AsyncWrite + Unpin> ConnectionReader<S> {
             info_hashes.push(info_hash);
         }
 
-        let pending_worker_out_messages = info_hashes_by_worker.len();
+        // If no info hashes were sent, no swarm worker will send a response
+        // part. An empty part is then sent below to complete the response.
+        let pending_worker_out_messages = info_hashes_by_worker.len().max(1);
 
         let pending_scrape_response = PendingScrapeResponse {
             pending_worker_out_messages,
@@ -451,6 +453,24 @@ impl<S: futures::AsyncRead + futures::AsyncWrite + Unpin> ConnectionReader<S> {
             .with_context(|| "Reached 256 pending scrape responses")?;
 
         let meta = self.make_connection_meta(Some(PendingScrapeId(pending_scrape_id)));
+
+        if info_hashes_by_worker.is_empty() {
+            let out_message = OutMessage::ScrapeResponse(ScrapeResponse {
+                action: ScrapeAction::Scrape,
+                files: Default::default(),
+            });
+
+            return self
+                .out_message_sender
+                .send((meta.into(), out_message))
+                .await
+                .map_err(|err| {
+                    anyhow::anyhow!(
+                        "ConnectionReader: sending empty scrape response failed: {:#}",
+                        err
+                    )
+                });
+        }
 
         for (consumer_index, info_hashes) in info_hashes_by_worker {
             let in_message = InMessage::ScrapeRequest(ScrapeRequest {
